@@ -13072,3 +13072,304 @@ func extraC18HeaderTimeoutNotFromDial(c *Ctx, r *Report) {
 	addMutants(Mutant{Prop: "C18", Name: "header-wait-bounded-by-dial-timeout", File: "internal/adapter/proxy/olla/service.go", Rule: "C18-R19",
 		Old: "		DisableCompression:  true,\n		ForceAttemptHTTP2:   true,\n", New: "		DisableCompression:  true,\n		ForceAttemptHTTP2:   true,\n		ResponseHeaderTimeout: config.GetConnectionTimeout(),\n"})
 }
+
+// ---------- C13-R16: a chunk that carries usage is still a chunk ----------
+func init() { registerExtra("C13", extraC13UsageDoesNotEndChunk) }
+
+func extraC13UsageDoesNotEndChunk(c *Ctx, r *Report) {
+	r.Rule("C13-R16", "in the stream translator's per-line handler no return is taken BECAUSE the chunk has a usage object before the chunk's choices were looked at: backends put usage on the same chunk as the last delta and the finish_reason (and some on every chunk), so 'usage chunk, nothing else in it' drops text, tool arguments and the stop reason of those chunks — the streamed translation no longer agrees with the buffered one", 1)
+	h := findLineHandler(c)
+	if h == nil {
+		r.Unresolved("C13-R16", "the stream translator's per-line handler")
+		return
+	}
+	var choicesLookup ssa.Instruction
+	eachInstr(h, func(in ssa.Instruction) {
+		if lk, ok := in.(*ssa.Lookup); ok && choicesLookup == nil {
+			if k, isK := constString(lk.Index); isK && k == "choices" {
+				choicesLookup = in
+			}
+		}
+		if cc := getCall(in); cc != nil && choicesLookup == nil {
+			// the choices handling may live in a helper (firstStreamChoice(chunk))
+			if sc := cc.StaticCallee(); sc != nil && sc.Blocks != nil && strings.HasSuffix(fnPkgPath(sc), pkgAnthropic) {
+				eachInstr(sc, func(x ssa.Instruction) {
+					if lk, ok := x.(*ssa.Lookup); ok {
+						if k, isK := constString(lk.Index); isK && k == "choices" {
+							choicesLookup = in
+						}
+					}
+				})
+			}
+		}
+	})
+	key := fname(h) + ":usage-does-not-end-the-chunk"
+	if choicesLookup == nil {
+		r.Undecided("C13-R16", key, h.Pos(), "no lookup of the chunk's choices found")
+		return
+	}
+	var bad *ssa.Return
+	for _, ret := range returnsOf(h) {
+		usageTrue := false
+		for _, cf := range normFacts(condFacts(ret.Block())) {
+			if !cf.True {
+				continue
+			}
+			if ex, ok := cf.Cond.(*ssa.Extract); ok && ex.Index == 1 {
+				if ta, ok := ex.Tuple.(*ssa.TypeAssert); ok && fromLookupKey(ta.X, "usage", 4) {
+					usageTrue = true
+				}
+			}
+		}
+		if usageTrue && !instrDominates(choicesLookup, ret) {
+			bad = ret
+		}
+	}
+	if bad != nil {
+		r.Bad("C13-R16", key, retPos(h, bad), "the handler returns as soon as it has read a chunk's usage object, before looking at its choices: a chunk that carries usage together with a delta or the finish_reason loses them — text or tool arguments are missing from the stream and the stop reason falls back to the default")
+	} else {
+		r.OK("C13-R16", key, h.Pos(), "no exit is taken for having usage before the choices were considered")
+	}
+	addMutants(Mutant{Prop: "C13", Name: "usage-chunk-ends-handling", File: "internal/adapter/translator/anthropic/streaming.go", Rule: "C13-R16",
+		Old: "	choices, ok := chunk[\"choices\"].([]interface{})\n	if !ok || len(choices) == 0 {\n		return nil\n	}\n", New: "	if _, hasUsage := chunk[\"usage\"].(map[string]interface{}); hasUsage {\n		return nil\n	}\n	choices, ok := chunk[\"choices\"].([]interface{})\n	if !ok || len(choices) == 0 {\n		return nil\n	}\n"})
+}
+
+// ---------- C16-R16: an endpoint's health and model paths come from its own configuration and its profile ----------
+func init() { registerExtra("C16", extraC16PathsNotFromSiblings) }
+
+func extraC16PathsNotFromSiblings(c *Ctx, r *Report) {
+	r.Rule("C16-R16", "in the repository's config loader the path handed to ResolveURLPath for an endpoint's health-check / model URL derives from that endpoint's own configuration and the profile factory only — it is never read out of a table the loader fills while it walks the endpoints (a per-type 'defaults' memo): what such a table holds for a type is whatever the FIRST endpoint of that type resolved to, explicit health_check_url / model_url included, so later endpoints of the type are probed at a sibling's path — or, for an absolute URL, at a sibling's host", 2)
+	lf := c.Fn("internal/adapter/discovery", "(*StaticEndpointRepository).LoadFromConfig")
+	if lf == nil {
+		r.Unresolved("C16-R16", "(*StaticEndpointRepository).LoadFromConfig")
+		return
+	}
+	// tables of the load: maps made in the loader (other than the endpoint table itself)
+	isLoadTable := func(v ssa.Value, stack []*ssa.Call) bool {
+		for d := 0; d < 6 && v != nil; d++ {
+			switch x := v.(type) {
+			case *ssa.MakeMap:
+				mt, _ := x.Type().Underlying().(*types.Map)
+				if mt != nil && isEndpointPtr(mt.Elem()) {
+					return false
+				}
+				return true
+			case *ssa.ChangeType:
+				v = x.X
+			case *ssa.Parameter:
+				if len(stack) == 0 {
+					return false
+				}
+				top := stack[len(stack)-1]
+				idx := -1
+				for i, p := range x.Parent().Params {
+					if p == x {
+						idx = i
+					}
+				}
+				if top.Call.StaticCallee() != x.Parent() || idx < 0 || idx >= len(top.Call.Args) {
+					return false
+				}
+				v = top.Call.Args[idx]
+				stack = stack[:len(stack)-1]
+			default:
+				return false
+			}
+		}
+		return false
+	}
+	var fromTable func(v ssa.Value, stack []*ssa.Call, d int, seen map[ssa.Value]bool) bool
+	fromTable = func(v ssa.Value, stack []*ssa.Call, d int, seen map[ssa.Value]bool) bool {
+		if v == nil || d == 0 || seen[v] {
+			return false
+		}
+		seen[v] = true
+		switch x := v.(type) {
+		case *ssa.Lookup:
+			return isLoadTable(x.X, stack)
+		case *ssa.Extract:
+			if call, ok := x.Tuple.(*ssa.Call); ok {
+				if sc := call.Call.StaticCallee(); sc != nil && c.inRepo(sc) && sc.Blocks != nil {
+					for _, ret := range returnsOf(sc) {
+						if x.Index < len(ret.Results) && fromTable(ret.Results[x.Index], append(append([]*ssa.Call{}, stack...), call), d-1, seen) {
+							return true
+						}
+					}
+				}
+				return false
+			}
+			return fromTable(x.Tuple, stack, d-1, seen)
+		case *ssa.Call:
+			if sc := x.Call.StaticCallee(); sc != nil && c.inRepo(sc) && sc.Blocks != nil {
+				for _, ret := range returnsOf(sc) {
+					if len(ret.Results) > 0 && fromTable(ret.Results[0], append(append([]*ssa.Call{}, stack...), x), d-1, seen) {
+						return true
+					}
+				}
+			}
+			return false
+		case *ssa.Phi:
+			for _, e := range x.Edges {
+				if fromTable(e, stack, d-1, seen) {
+					return true
+				}
+			}
+		case *ssa.Field:
+			return fromTable(x.X, stack, d-1, seen)
+		case *ssa.FieldAddr:
+			return fromTable(x.X, stack, d-1, seen)
+		case *ssa.Alloc:
+			for _, ref := range *x.Referrers() {
+				if st, ok := ref.(*ssa.Store); ok && st.Addr == ssa.Value(x) && fromTable(st.Val, stack, d-1, seen) {
+					return true
+				}
+			}
+			return false
+		case *ssa.UnOp:
+			if al, ok := x.X.(*ssa.Alloc); ok {
+				for _, ref := range *al.Referrers() {
+					if st, ok := ref.(*ssa.Store); ok && st.Addr == ssa.Value(al) && fromTable(st.Val, stack, d-1, seen) {
+						return true
+					}
+					// a struct local whose fields are filled one by one
+					if fa, ok := ref.(*ssa.FieldAddr); ok {
+						for _, r2 := range *fa.Referrers() {
+							if st, ok := r2.(*ssa.Store); ok && fromTable(st.Val, stack, d-1, seen) {
+								return true
+							}
+						}
+					}
+				}
+				return false
+			}
+			return fromTable(x.X, stack, d-1, seen)
+		case *ssa.Parameter:
+			if len(stack) == 0 {
+				return false
+			}
+			top := stack[len(stack)-1]
+			for i, p := range x.Parent().Params {
+				if p == x && top.Call.StaticCallee() == x.Parent() && i < len(top.Call.Args) {
+					return fromTable(top.Call.Args[i], stack[:len(stack)-1], d-1, seen)
+				}
+			}
+		}
+		return false
+	}
+	n := 0
+	eachInstr(lf, func(in ssa.Instruction) {
+		call, ok := in.(*ssa.Call)
+		if !ok || describeCall(&call.Call).Name != "ResolveURLPath" || len(call.Call.Args) < 2 {
+			return
+		}
+		n++
+		key := fmt.Sprintf("%s:path-operand-%d-own", fname(lf), n)
+		if fromTable(call.Call.Args[1], nil, 12, map[ssa.Value]bool{}) {
+			r.Bad("C16-R16", key, in.Pos(), "the path resolved for this endpoint can come out of a table the loader fills per endpoint type while it walks the list: the entry holds what the first endpoint of the type resolved to — its explicit URL included — so this endpoint's health check or model listing goes to a sibling's path or host")
+		} else {
+			r.OK("C16-R16", key, in.Pos(), "derived from the endpoint's own configuration and profile")
+		}
+	})
+	if n == 0 {
+		r.Undecided("C16-R16", "resolve-calls", token.NoPos, "no ResolveURLPath call in the config loader")
+	}
+	addMutants(Mutant{Prop: "C16", Name: "model-path-memoised-per-type", File: "internal/adapter/discovery/repository.go", Rule: "C16-R16",
+		Old: "		healthCheckPath, modelPath := r.resolveURLDefaults(cfg)\n", New: "		healthCheckPath, modelPath := r.resolveURLDefaults(cfg)\n		if known, ok := modelPathByType[cfg.Type]; ok && cfg.ModelURL == \"\" {\n			modelPath = known\n		} else {\n			modelPathByType[cfg.Type] = modelPath\n		}\n",
+		Edits: []Edit{{"internal/adapter/discovery/repository.go", "	for _, cfg := range configs {\n		applyEndpointDefaults(&cfg)\n", "	modelPathByType := make(map[string]string)\n	for _, cfg := range configs {\n		applyEndpointDefaults(&cfg)\n"}}})
+}
+
+// ---------- C19-R19: an attempt's outcome is recorded against the endpoint it was made to ----------
+func init() { registerExtra("C19", extraC19OutcomeNamesEndpoint) }
+
+func extraC19OutcomeNamesEndpoint(c *Ctx, r *Report) {
+	r.Rule("C19-R19", "in the per-attempt functions every RecordFailure / RecordSuccess passes the attempt's own endpoint (the function's *domain.Endpoint parameter), never nil: the recorder forwards an outcome to the statistics only for a non-nil endpoint, so 'don't charge the skip to the endpoint' (nil) makes a circuit-open attempt — counted as started, answered 502 — a record that exists in no counter", 4)
+	n := 0
+	for _, af := range attemptFuncs(c) {
+		var ep *ssa.Parameter
+		for _, p := range af.Params {
+			if isEndpointPtr(p.Type()) {
+				ep = p
+			}
+		}
+		if ep == nil {
+			continue
+		}
+		eachInstr(af, func(in ssa.Instruction) {
+			cc := getCall(in)
+			if cc == nil {
+				return
+			}
+			sc := cc.StaticCallee()
+			if sc == nil || (sc.Name() != "RecordFailure" && sc.Name() != "RecordSuccess") || !strings.Contains(fnPkgPath(sc), "/adapter/proxy/core") {
+				return
+			}
+			var arg ssa.Value
+			for _, a := range cc.Args {
+				if isEndpointPtr(a.Type()) {
+					arg = a
+				}
+			}
+			if arg == nil {
+				return
+			}
+			n++
+			key := fmt.Sprintf("%s:%s-names-the-endpoint", fname(af), sc.Name())
+			if arg == ssa.Value(ep) {
+				r.OK("C19-R19", key, in.Pos(), "recorded against the attempt's endpoint")
+			} else {
+				r.Bad("C19-R19", key, in.Pos(), "the attempt's outcome is recorded without its endpoint (nil or another value): the statistics collector is only told about outcomes that name an endpoint, so this attempt is counted when it starts and never when it ends")
+			}
+		})
+	}
+	if n == 0 {
+		r.Undecided("C19-R19", "attempt-outcome-records", token.NoPos, "no RecordFailure / RecordSuccess in the per-attempt functions")
+	}
+	addMutants(Mutant{Prop: "C19", Name: "circuit-open-skip-recorded-without-endpoint", File: "internal/adapter/proxy/olla/service_retry.go", Rule: "C19-R19",
+		Old: "		s.RecordFailure(ctx, endpoint, time.Since(stats.StartTime), fmt.Errorf(\"circuit breaker open\"))\n", New: "		s.RecordFailure(ctx, nil, time.Since(stats.StartTime), fmt.Errorf(\"circuit breaker open\"))\n"})
+}
+
+// ---------- C19-R20: the translator event's success is the request's error flag, negated ----------
+func init() { registerExtra("C19", extraC19EventSuccessIsFlag) }
+
+func extraC19EventSuccessIsFlag(c *Ctx, r *Report) {
+	r.Rule("C19-R20", "the Success field of every ports.TranslatorRequestEvent the handlers build is exactly the negation of the request's error flag (proxyRequest.hadError — set wherever the client is answered with an error status): not a disjunction with the mode, the route or anything else. 'In passthrough mode it is the backend's fault' records a request the client saw fail with a 502 or 400 as a success", 1)
+	n := 0
+	for _, f := range c.Funcs {
+		if !strings.HasSuffix(fnPkgPath(f), pkgHandlers) || f.Blocks == nil {
+			continue
+		}
+		eachInstr(f, func(in ssa.Instruction) {
+			st, ok := in.(*ssa.Store)
+			if !ok || !isField(st.Addr, "internal/core/ports", "TranslatorRequestEvent", "Success") {
+				return
+			}
+			n++
+			key := fname(f) + ":event-success"
+			ok2 := false
+			v := st.Val
+			if al, isLd := v.(*ssa.UnOp); isLd && al.Op == token.MUL {
+				if cell, isAl := al.X.(*ssa.Alloc); isAl {
+					stores := cellStores(cell)
+					if len(stores) == 1 {
+						v = stores[0]
+					}
+				}
+			}
+			if u, isNot := v.(*ssa.UnOp); isNot && u.Op == token.NOT {
+				if mentionsField(u.X, pkgHandlers, "proxyRequest", "hadError", 2) {
+					ok2 = true
+				}
+			}
+			if ok2 {
+				r.OK("C19-R20", key, in.Pos(), "Success = !hadError")
+			} else {
+				r.Bad("C19-R20", key, in.Pos(), "the event's Success is not simply the negation of the request's error flag (a merged or overridden value): a request that was answered with an error status can be recorded as a success")
+			}
+		})
+	}
+	if n == 0 {
+		r.Undecided("C19-R20", "translator-events", token.NoPos, "no TranslatorRequestEvent.Success store found in the handlers")
+	}
+	addMutants(Mutant{Prop: "C19", Name: "passthrough-always-a-success", File: "internal/app/handlers/handler_translation.go", Rule: "C19-R20",
+		Old: "	success := !pr.hadError\n", New: "	success := !pr.hadError || mode == constants.TranslatorModePassthrough\n"})
+}
